@@ -453,6 +453,7 @@ ebpps_sketch<T,A> ebpps_sketch<T,A>::deserialize(std::istream& is, const SerDe& 
 
   const bool empty = (flags & EMPTY_FLAG_MASK);
   
+  if (!is.good()) throw std::runtime_error("error reading from std::istream");
   if (empty)
     return ebpps_sketch(k, allocator);
 
